@@ -5,18 +5,7 @@ From Coq Require Import Permutation Sorted ZifyBool ZifyN ZifyNat.
 Ltac Zify.zify_post_hook ::= Z.to_euclidean_division_equations.
 Open Scope Z_scope.
 
-Definition all_ok (_ : nat) : bool := true.
-Lemma all_allowed : forall ops, forallb (op_allowed all_ok) ops = true.
-Proof. induction ops as [|o ops IH]; [reflexivity|]. cbn [forallb]. rewrite IH. destruct o; reflexivity. Qed.
-
 (* ---------- T1: the invariant holds in every reachable state ---------- *)
-Lemma fire_inv : forall jit c s e s1 z s2 ev r, Inv s -> get_next_task s = (Some e, s1, z) ->
-  process_task jit c s1 e = (s2, ev, r) -> Inv s2.
-Proof.
-  intros jit c s e s1 z s2 ev r Hi G P. eapply process_task_inv; [|exact P].
-  eapply get_next_inv; eassumption.
-Qed.
-
 Lemma install_inv : forall s i f s', Inv s ->
   (f = ttime s \/ exists t, f = upd (ttime s) i (Some t)) -> tm_install (set_ttime s f) i = Ok s' -> Inv s'.
 Proof.
@@ -29,8 +18,8 @@ Qed.
 Lemma run_ops_inv : forall guard jit c ops s s' ev, Inv s -> run_ops guard jit c s ops = (s', ev) -> Inv s'.
 Proof.
   intros guard jit c ops s s' ev Hi H.
-  refine (run_ops_I (fun s _ => Inv s) guard jit c _ _ _ _ all_ok _ _ ops s [] s' ev Hi (all_allowed ops) H).
-  - intros; eapply fire_inv; eassumption.
+  refine (run_ops_I (fun s _ => Inv s) guard jit c _ _ _ _ _ _ ops s [] s' ev Hi H).
+  - intros s0 acc e s1 z Hi0 G. eapply get_next_inv; eassumption.
   - intros; apply Inv_set_dq; assumption.
   - intros; assumption.
   - intros; apply tm_suspend_inv; assumption.
@@ -100,20 +89,20 @@ Lemma noise_Forall : forall (P : event -> Prop) ev, (forall x, is_fire x = false
 Proof. intros P ev HP Hn. apply Forall_forall. intros x Hx. apply HP, Hn, Hx. Qed.
 
 Lemma fire_ok_noise : forall x, is_fire x = false -> fire_ok x.
-Proof. intros []; cbn; intros; try exact I0; try discriminate; exact I. Qed.
+Proof. intros []; cbn; intros; try discriminate; exact I. Qed.
 
 Lemma run_ops_never_early : forall guard jit c ops s s' ev,
   run_ops guard jit c s ops = (s', ev) -> Forall fire_ok ev.
 Proof.
   intros guard jit c ops s s' ev H.
-  refine (run_ops_I (fun _ acc => Forall fire_ok acc) guard jit c _ _ _ _ all_ok _ _ ops s [] s' ev
-            (Forall_nil _) (all_allowed ops) H); try (intros; assumption).
-  - intros s0 acc e s1 z s2 ev0 r Ha G P.
+  refine (run_ops_I (fun _ acc => Forall fire_ok acc) guard jit c _ _ _ _ _ _ ops s [] s' ev
+            (Forall_nil _) H); try (intros; assumption).
+  - intros s0 acc e s1 z Ha G.
     destruct (get_next_some _ _ _ _ G) as [r0 [_ [Hd [-> _]]]].
-    destruct (process_task_cases _ _ _ _ _ _ _ P) as [-> _].
-    apply Forall_app. split; [exact Ha|]. constructor; [|constructor]. cbn. exact Hd.
+    apply Forall_app. split; [exact Ha|]. constructor; [exact I|]. constructor; [|constructor]. cbn. exact Hd.
   - intros s0 acc ev0 Ha Hn. apply Forall_app. split; [exact Ha|].
     apply noise_Forall; [apply fire_ok_noise | exact Hn].
+  - intros s0 acc i f s1 auto Ha _ _. apply Forall_app. split; [exact Ha|]. constructor; [exact I | constructor].
 Qed.
 
 (* ---------- light facts about the heap under install / suspend (no invariant needed) ---------- *)
@@ -139,26 +128,6 @@ Proof.
     split; [apply insert_perm | split; reflexivity].
   - exists (heap s). split; [reflexivity|]. split; [left; reflexivity|].
     split; [apply insert_perm | split; reflexivity].
-Qed.
-
-(* what one firing does to the heap: the head goes, and at most a fresh entry of the same task comes *)
-Lemma fire_heap : forall jit c s e s1 z s2 ev r, get_next_task s = (Some e, s1, z) ->
-  process_task jit c s1 e = (s2, ev, r) ->
-  exists rest, heap s = e :: rest /\ e_when e <= now s /\ ev = [fire_of s e] /\ now s2 = now s /\
-    ((heap s2 = rest /\ ctr s2 = ctr s) \/
-     exists iv off h1, t_kind (cfg_get c (e_tid e)) = Recurring iv off /\ 0 < iv /\ r = false /\
-       (h1 = rest \/ exists e', e_tid e' = e_tid e /\ Permutation rest (e' :: h1)) /\
-       Permutation (heap s2) ((next_slot jit iv off (now s), ctr s, e_tid e) :: h1) /\ ctr s2 = (ctr s + 1)%N).
-Proof.
-  intros jit c s e s1 z s2 ev r G P.
-  destruct (get_next_some _ _ _ _ G) as [rest [Hh [Hd [-> _]]]].
-  exists rest. split; [exact Hh|]. split; [exact Hd|].
-  destruct (process_task_cases _ _ _ _ _ _ _ P) as [-> Hc]. split; [reflexivity|].
-  cbn [now dq heap ctr set_dq] in Hc. destruct Hc as [->|[iv [off [K [Hiv [-> T]]]]]].
-  - split; [reflexivity|]. left. split; reflexivity.
-  - destruct (tm_install_heap _ _ _ T) as [t [h1 [Ht [Hh1 [Hp [Hc Hn]]]]]].
-    cbn [ttime set_ttime set_dq heap ctr now] in *. rewrite upd_same in Ht. inversion Ht; subst t.
-    split; [exact Hn|]. right. exists iv, off, h1. repeat split; try assumption.
 Qed.
 
 (* ---------- T3: one firing per installation (counter values of fired entries are distinct) ---------- *)
@@ -211,35 +180,33 @@ Proof.
   - intros n Hi. apply (Permutation_in _ Hp') in Hi. destruct Hi as [<-|Hi]; [lia|]. apply Hb in Hi. lia.
 Qed.
 
+Lemma fired_ghost1 : forall x, match x with EvFire _ _ _ _ => False | _ => True end -> fired [x] = [].
+Proof. intros [] H; try reflexivity. destruct H. Qed.
+
 Lemma run_ops_once : forall guard jit c ops s s' ev, Once s [] ->
   run_ops guard jit c s ops = (s', ev) -> Once s' ev.
 Proof.
   intros guard jit c ops s s' ev H0 H.
-  refine (run_ops_I Once guard jit c _ _ _ _ all_ok _ _ ops s [] s' ev H0 (all_allowed ops) H).
-  - intros s0 acc e s1 z s2 ev0 r Ho G P.
-    destruct (fire_heap _ _ _ _ _ _ _ _ _ G P) as [rest [Hh [_ [-> [_ Hc]]]]].
-    assert (Ho' : NoDup (seqs (fired (acc ++ [fire_of s0 e])) ++ seqs rest) /\
-                  forall n, In n (seqs (fired (acc ++ [fire_of s0 e])) ++ seqs rest) -> (n < ctr s0)%N).
-    { destruct Ho as [Hn Hb]. rewrite Hh in Hn, Hb. rewrite fired_app, fired_fire. unfold seqs in *.
-      rewrite map_app. cbn [map] in *. rewrite <- app_assoc. cbn [app]. split; assumption. }
-    destruct Hc as [[Hr Hcc]|[iv [off [h1 [_ [_ [_ [Hh1 [Hp Hcc]]]]]]]]].
-    + unfold Once. rewrite Hr, Hcc. exact Ho'.
-    + unfold Once. rewrite Hcc. eapply Once_add; [|exact Hp].
-      destruct Hh1 as [->|[e' [_ Hp']]]; [exact Ho'|].
-      destruct Ho' as [Hn Hb].
-      assert (Hq : Permutation (seqs (fired (acc ++ [fire_of s0 e])) ++ seqs rest)
-                               (e_seq e' :: seqs (fired (acc ++ [fire_of s0 e])) ++ seqs h1)).
-      { unfold seqs at 2. rewrite (Permutation_map e_seq Hp'). cbn [map]. symmetry. apply Permutation_middle. }
-      pose proof (Permutation_NoDup Hq Hn) as Hn'. inversion Hn'; subst. split; [assumption|].
-      intros n Hi. apply Hb. apply (Permutation_in _ (Permutation_sym Hq)). right. exact Hi.
+  refine (run_ops_I Once guard jit c _ _ _ _ _ _ ops s [] s' ev H0 H).
+  - intros s0 acc e s1 z [Hn Hb] G.
+    destruct (get_next_some _ _ _ _ G) as [rest [Hh [_ [-> _]]]].
+    unfold Once. cbn [heap ctr].
+    change [EvPop e rest; fire_of {| now := now s0; ctr := ctr s0; heap := rest;
+              sched := upd (sched s0) (e_tid e) false; ttime := ttime s0; dq := dq s0 |} e]
+      with ([EvPop e rest] ++ [fire_of {| now := now s0; ctr := ctr s0; heap := rest;
+              sched := upd (sched s0) (e_tid e) false; ttime := ttime s0; dq := dq s0 |} e]).
+    rewrite !fired_app, fired_fire. cbn [fired flat_map app]. try rewrite app_nil_r.
+    rewrite Hh in Hn, Hb. unfold seqs in *. rewrite map_app. cbn [map] in *.
+    rewrite <- app_assoc. cbn [app]. split; assumption.
   - intros s0 acc q Ho. exact Ho.
   - intros s0 acc ev0 Ho Hn. unfold Once. rewrite fired_app, (fired_noise _ Hn), app_nil_r. exact Ho.
   - intros s0 acc i Ho. destruct (tm_suspend_heap s0 i) as [Hh [Hc _]].
     unfold Once. rewrite Hc. eapply Once_perm; [exact Ho | | lia].
     destruct Hh as [Hh|[e [_ Hp]]]; [left; exact Hh | right; exists e; exact Hp].
-  - intros s0 acc i f s1 Ho _ _ T.
+  - intros s0 acc i f s1 auto Ho _ T.
     destruct (tm_install_heap _ _ _ T) as [t [h1 [_ [Hh1 [Hp [Hc _]]]]]].
-    cbn [heap ctr set_ttime] in *. unfold Once. rewrite Hc. eapply Once_add; [|exact Hp].
+    cbn [heap ctr set_ttime] in *. unfold Once. rewrite fired_app. cbn [fired flat_map app]. rewrite app_nil_r.
+    rewrite Hc. eapply Once_add; [|exact Hp].
     eapply (Once_perm s0); [exact Ho | | lia].
     destruct Hh1 as [->|[e [_ Hp']]]; [left; reflexivity | right; exists e; exact Hp'].
   - intros s0 acc t Ho. exact Ho.
@@ -260,10 +227,12 @@ Proof.
   - split; [constructor | intros n []].
 Qed.
 
-(* ---------- T4: a task that is not queued does not fire until it is installed again ---------- *)
+(* ---------- T4: a task that is not queued does not fire unless an installation of it is recorded ---------- *)
 Definition fire_tid (x : event) : option nat := match x with EvFire i _ _ _ => Some i | _ => None end.
+Definition is_inst (i : nat) (x : event) : bool := match x with EvInst j _ => Nat.eqb j i | _ => false end.
+Definition has_inst (i : nat) (acc : list event) : bool := existsb (is_inst i) acc.
 Definition Quiet (i : nat) (s : st) (acc : list event) : Prop :=
-  ~ In i (map e_tid (heap s)) /\ forall x, In x acc -> fire_tid x <> Some i.
+  has_inst i acc = true \/ (~ In i (map e_tid (heap s)) /\ forall x, In x acc -> fire_tid x <> Some i).
 
 Lemma perm_tids_sub : forall (h h1 : list entry) e i, Permutation h (e :: h1) -> ~ In i (map e_tid h) -> ~ In i (map e_tid h1).
 Proof.
@@ -271,41 +240,64 @@ Proof.
   right. exact Hi.
 Qed.
 
+Lemma has_inst_app_l : forall i a b, has_inst i a = true -> has_inst i (a ++ b) = true.
+Proof. intros i a b H. unfold has_inst in *. rewrite existsb_app, H. reflexivity. Qed.
+
 Lemma run_ops_quiet : forall guard jit c i ops s s' ev,
-  ~ In i (map e_tid (heap s)) ->
-  forallb (op_allowed (fun j => negb (Nat.eqb j i))) ops = true ->
-  run_ops guard jit c s ops = (s', ev) ->
-  ~ In i (map e_tid (heap s')) /\ forall x, In x ev -> fire_tid x <> Some i.
+  ~ In i (map e_tid (heap s)) -> run_ops guard jit c s ops = (s', ev) ->
+  has_inst i ev = false -> forall x, In x ev -> fire_tid x <> Some i.
 Proof.
-  intros guard jit c i ops s s' ev H0 Ha H.
-  refine (run_ops_I (Quiet i) guard jit c _ _ _ _ (fun j => negb (Nat.eqb j i)) _ _ ops s [] s' ev _ Ha H).
-  - intros s0 acc e s1 z s2 ev0 r [Hq Hf] G P.
-    destruct (fire_heap _ _ _ _ _ _ _ _ _ G P) as [rest [Hh [_ [-> [_ Hc]]]]].
-    rewrite Hh in Hq. cbn [map] in Hq.
-    assert (Hne : e_tid e <> i) by (intros Heq; apply Hq; left; exact Heq).
-    assert (Hr : ~ In i (map e_tid rest)) by (intros Hi; apply Hq; right; exact Hi).
-    split.
-    + destruct Hc as [[-> _]|[iv [off [h1 [_ [_ [_ [Hh1 [Hp _]]]]]]]]]; [exact Hr|].
-      intros Hi. apply (Permutation_in _ (Permutation_map e_tid Hp)) in Hi. cbn [map e_tid snd] in Hi.
-      destruct Hi as [Hi|Hi]; [contradiction|].
-      destruct Hh1 as [->|[e' [_ Hp']]]; [contradiction|].
-      exact (perm_tids_sub _ _ _ _ Hp' Hr Hi).
-    + intros x Hx. apply in_app_or in Hx. destruct Hx as [Hx|[<-|[]]]; [apply Hf, Hx|].
-      cbn. intros Heq. inversion Heq. contradiction.
-  - intros s0 acc q Hq. exact Hq.
-  - intros s0 acc ev0 [Hq Hf] Hn. split; [exact Hq|]. intros x Hx. apply in_app_or in Hx.
-    destruct Hx as [Hx|Hx]; [apply Hf, Hx|]. apply Hn in Hx. destruct x; try discriminate; cbn; discriminate.
-  - intros s0 acc j [Hq Hf]. split; [|exact Hf].
-    destruct (tm_suspend_heap s0 j) as [[Hh|[e [_ Hp]]] _]; [rewrite Hh; exact Hq|].
-    exact (perm_tids_sub _ _ _ _ Hp Hq).
-  - intros s0 acc j f s1 [Hq Hf] Hj _ T. split; [|exact Hf].
-    destruct (tm_install_heap _ _ _ T) as [t [h1 [_ [Hh1 [Hp _]]]]]. cbn [heap set_ttime] in *.
-    intros Hi. apply (Permutation_in _ (Permutation_map e_tid Hp)) in Hi. cbn [map e_tid snd] in Hi.
-    destruct Hi as [Hi|Hi].
-    + subst j. rewrite Nat.eqb_refl in Hj. discriminate.
-    + destruct Hh1 as [->|[e [_ Hp']]]; [contradiction|]. exact (perm_tids_sub _ _ _ _ Hp' Hq Hi).
-  - intros s0 acc t Hq. exact Hq.
-  - split; [exact H0 | intros x []].
+  intros guard jit c i ops s s' ev H0 H Hno.
+  assert (HQ : Quiet i s' ([] ++ ev)).
+  { refine (run_ops_I (Quiet i) guard jit c _ _ _ _ _ _ ops s [] s' ev _ H).
+    - intros s0 acc e s1 z [Hl|[Hq Hf]] G; [left; apply has_inst_app_l, Hl|]. right.
+      destruct (get_next_some _ _ _ _ G) as [rest [Hh [_ [-> _]]]]. cbn [heap].
+      rewrite Hh in Hq. cbn [map] in Hq. split; [intros Hi; apply Hq; right; exact Hi|].
+      intros x Hx. apply in_app_or in Hx. destruct Hx as [Hx|[<-|[<-|[]]]]; [apply Hf, Hx | discriminate|].
+      cbn. intros Heq. inversion Heq. apply Hq. left. assumption.
+    - intros s0 acc q Hq. exact Hq.
+    - intros s0 acc ev0 [Hl|[Hq Hf]] Hn; [left; apply has_inst_app_l, Hl|]. right. split; [exact Hq|].
+      intros x Hx. apply in_app_or in Hx.
+      destruct Hx as [Hx|Hx]; [apply Hf, Hx|]. apply Hn in Hx. destruct x; try discriminate; cbn; discriminate.
+    - intros s0 acc j [Hl|[Hq Hf]]; [left; exact Hl|]. right. split; [|exact Hf].
+      destruct (tm_suspend_heap s0 j) as [[Hh|[e [_ Hp]]] _]; [rewrite Hh; exact Hq|].
+      exact (perm_tids_sub _ _ _ _ Hp Hq).
+    - intros s0 acc j f s1 auto [Hl|[Hq Hf]] _ T; [left; apply has_inst_app_l, Hl|].
+      destruct (Nat.eq_dec j i) as [->|Hne].
+      + left. unfold has_inst. rewrite existsb_app. cbn [existsb is_inst]. rewrite Nat.eqb_refl.
+        rewrite orb_true_r. reflexivity.
+      + right. destruct (tm_install_heap _ _ _ T) as [t [h1 [_ [Hh1 [Hp _]]]]]. cbn [heap set_ttime] in *. split.
+        * intros Hi. apply (Permutation_in _ (Permutation_map e_tid Hp)) in Hi. cbn [map e_tid snd] in Hi.
+          destruct Hi as [Hi|Hi]; [congruence|].
+          destruct Hh1 as [->|[e [_ Hp']]]; [contradiction|]. exact (perm_tids_sub _ _ _ _ Hp' Hq Hi).
+        * intros x Hx. apply in_app_or in Hx. destruct Hx as [Hx|[<-|[]]]; [apply Hf, Hx | discriminate].
+    - intros s0 acc t Hq. exact Hq.
+    - right. split; [exact H0 | intros x []]. }
+  cbn [app] in HQ. destruct HQ as [Hl|[_ Hf]]; [congruence | exact Hf].
+Qed.
+
+(* ---------- T5 (general form): whatever fires is the least entry of the queue at that moment ---------- *)
+Definition pop_ok (x : event) : Prop :=
+  match x with EvPop e rest => forall y, In y rest -> elt e y | _ => True end.
+
+Lemma run_ops_pop_min : forall guard jit c ops s s' ev, Inv s ->
+  run_ops guard jit c s ops = (s', ev) -> Forall pop_ok ev.
+Proof.
+  intros guard jit c ops s s' ev Hi H.
+  refine (proj2 (run_ops_I (fun s acc => Inv s /\ Forall pop_ok acc) guard jit c _ _ _ _ _ _ ops s [] s' ev
+            (conj Hi (Forall_nil _)) H)).
+  - intros s0 acc e s1 z [Hi0 Ha] G. split; [eapply get_next_inv; eassumption|].
+    destruct (get_next_some _ _ _ _ G) as [rest [Hh [_ [-> _]]]]. cbn [heap].
+    apply Forall_app. split; [exact Ha|]. constructor; [|constructor; [exact I | constructor]].
+    cbn. destruct Hi0 as [[Hso _ _ _] _]. rewrite Hh in Hso. inversion Hso as [|? ? _ Hf]; subst.
+    rewrite Forall_forall in Hf. exact Hf.
+  - intros s0 acc q [Hi0 Ha]. split; [apply Inv_set_dq, Hi0 | exact Ha].
+  - intros s0 acc ev0 [Hi0 Ha] Hn. split; [exact Hi0|]. apply Forall_app. split; [exact Ha|].
+    apply noise_Forall; [|exact Hn]. intros []; cbn; intros; try discriminate; exact I.
+  - intros s0 acc i [Hi0 Ha]. split; [apply tm_suspend_inv, Hi0 | exact Ha].
+  - intros s0 acc i f s1 auto [Hi0 Ha] Hf T. split; [eapply install_inv; eassumption|].
+    apply Forall_app. split; [exact Ha|]. constructor; [exact I | constructor].
+  - intros s0 acc t [Hi0 Ha]. split; [apply Inv_set_now, Hi0 | exact Ha].
 Qed.
 
 (* ---------- T7: next-slot arithmetic (exact) ---------- *)
